@@ -29,6 +29,15 @@ PROPS["C10"] = dict(
                  "group member tags are disjoint from scalar body tags (FIX forbids a tag twice outside a group)"],
 )
 
+PROPS["C11"] = dict(
+    pkg="./props/codec", level="exploration", design_ref="DESIGN.md §3 C11",
+    technique="rapid-generated well-formed messages serialised by an independent encoder, parsed by quickfix in three dictionary modes and compared field by field with an independent scanner; single-corruption metamorphic variants must be rejected",
+    stages=[dict(name="rapid", kind="rapid", run="^TestC11_Rapid$", checks=(3000, 60000), shards=(12, 16), timeout=(400, 2400))],
+    require=["mode:none", "mode:app", "mode:fixt", "with-xmldata", "with-dictionary-group", "corruption:len+", "corruption:swap89", "corruption:omit35"],
+    assumptions=["section membership of a tag is the FIX standard header/trailer table (identical in all shipped dictionaries)",
+                 "duplicate tags outside groups are not generated (retrieval would be ambiguous)"],
+)
+
 NOT_APPLICABLE = {}
 
 HOOK_COMMITS = ["ce15100"]
